@@ -316,3 +316,20 @@ case('benign-rrtstar-cost-local', ['C15', 'C17', 'C03', 'C05'], [],
      (RRTS, "                    let mutable_neighbour_node = &mut self.tree[neighbour_idx];\n                    mutable_neighbour_node.parent_index = Some(new_node_index);\n                    mutable_neighbour_node.cost = cost_via_new_node;", "                    let rewired = &mut self.tree[neighbour_idx];\n                    rewired.cost = cost_via_new_node;\n                    rewired.parent_index = Some(new_node_index);"))
 case('benign-connect-lt', ['C16', 'C02', 'C01'], [],
      (RRTC, "                if self.start_tree.len() <= self.goal_tree.len() {", "                if self.start_tree.len() < self.goal_tree.len() + 1 {"))
+
+# ---------------------------------------------------------------- C09 / C10 (range clauses) and more benign cases
+SO2S = 'oxmpl/src/base/states/so2_state.rs'
+case('c09-so3-no-clamp', ['C09'], ['C09.range'],
+     (SO3, "        let clamped_dot = abs_dot.min(1.0);", "        let clamped_dot = abs_dot;"))
+case('c09-so2-no-wrap', ['C09'], ['C09.range'],
+     (SO2, "        let mut diff = state1.value - state2.value;\n        diff = (diff + PI).rem_euclid(2.0 * PI) - PI;\n        diff.abs()", "        let diff = state1.value - state2.value;\n        diff.abs()"))
+case('c09-rv-signed-sum', ['C09'], ['C09.range'],
+     (RV, "            .map(|(v1, v2)| (v1 - v2).powi(2))\n            .sum::<f64>()\n            .sqrt()", "            .map(|(v1, v2)| (v1 - v2).powi(3))\n            .sum::<f64>()\n            .sqrt()"))
+case('c10-so2-no-normalise', ['C10'], ['C10.canon'],
+     (SO2, "        out_state.value = from.value + diff_to_from * t;\n        out_state.value = out_state.normalise().value;", "        out_state.value = from.value + diff_to_from * t;"))
+case('c12-so2state-no-wrap', ['C12', 'C10'], ['C12.range', 'C10.canon'],
+     (SO2S, "    pub fn new(val: f64) -> Self {\n        SO2State {\n            value: (val + PI).rem_euclid(2.0 * PI) - PI,", "    pub fn new(val: f64) -> Self {\n        SO2State {\n            value: val,"))
+case('benign-so2-distance-rem', ['C09'], [],
+     (SO2, "        let mut diff = state1.value - state2.value;\n        diff = (diff + PI).rem_euclid(2.0 * PI) - PI;\n        diff.abs()", "        let diff = state1.value - state2.value;\n        PI - ((diff.abs() % (2.0 * PI)) - PI).abs()"))
+case('benign-compound-zip', ['C13', 'C08', 'C06'], [],
+     (CSS, "        for i in 0..self.subspaces.len() {\n            self.subspaces[i].enforce_bounds_dyn(&mut *state.components[i]);\n        }", "        for (subspace, component) in self.subspaces.iter().zip(state.components.iter_mut()) {\n            subspace.enforce_bounds_dyn(&mut **component);\n        }"))
